@@ -246,9 +246,10 @@ func c07Dense(c *ctx, s float64, box [4]int, path [][2]int, open int, q [][][2]i
 				}
 				np = append(np, w)
 			}
-			// with the open option a piece that is a single point holds nothing that lies strictly inside: the
-			// library may or may not report it (a line that only touches a corner from outside)
-			if open == 1 && len(np) <= 1 {
+			// a piece that is a single point - a line that only touches a corner or a side from outside - is reported
+			// or not depending on where the vertices fall (with the open option it holds nothing strictly inside; with
+			// the closed box the trace spec treats such zero-length touch pieces as optional as well): left out of both
+			if len(np) <= 1 {
 				continue
 			}
 			out = append(out, np)
